@@ -71,7 +71,7 @@ def main():
                 if g.r.random() < 0.06: p = ''
                 if au is None and p == '' : p = '/'
                 q = g.pick([None, None, 'q', '', 'a:b', 'x=1:2/3?4']) ; f = g.pick([None, None, 'f', 'sec:1', 'a/b:c?d'])   # delimiters that are legal inside query / fragment
-                return {'scheme': sch if g.r.random() < 0.95 else 'other', 'authority': (au if g.r.random() < 0.85 else RESPELL.get(au, au)) if g.r.random() < 0.92 else g.pick([None, 'k']), 'path': p, 'query': q, 'fragment': f}
+                return {'scheme': sch if g.r.random() < 0.95 else 'other', 'authority': (au if g.r.random() < 0.85 else RESPELL.get(au, au)) if g.r.random() < 0.9 else g.pick([None, 'k'] + ([au + '.uk', au + 'x', au[:-1]] if au and '@' not in au and ':' not in au else [])), 'path': p, 'query': q, 'fragment': f}
             shared = [g.pick(SEG[:3]) for _ in range(g.pick([0, 1, 2, 3]))]
             pa, pb = mk(shared), mk(shared)
             for p in (pa, pb):
@@ -86,6 +86,13 @@ def main():
                 cases.append(('uri', ('http://h' + x + q).encode(), ('http://h' + y).encode()))
                 if x and y:
                     cases.append(('uri', ('s:' + x + q).encode(), ('s:' + y).encode()))
+    # one authority a textual prefix of the other, with empty and root paths on either side
+    for ha, hb in (('example.org.uk', 'example.org'), ('example.org', 'example.org.uk'), ('hh', 'h'), ('h', 'hh'), ('h:80', 'h'), ('h', 'h:80')):
+        for x in ('', '/', '/a/b', '/a/b/'):
+            for y in ('', '/', '/a', '/a/'):
+                for q in ('', '?q'):
+                    cases.append(('uri', ('http://' + ha + x + q).encode(), ('http://' + hb + y).encode()))
+                    cases.append(('iri', ('http://' + ha + x + q).encode(), ('http://' + hb + y).encode()))
     lines = ['relto\t%s\t%s\t%s' % (fam, hexs(a), hexs(b)) for fam, a, b in cases]
     impl = run_lines(harness, lines)
     mod = run_lines(model, lines)
